@@ -11,6 +11,7 @@ from vlib import ref_toast as rt
 
 PROPERTY = "C04"
 LEVEL = "exploration"
+OPTIMIZED_SAMPLE = (4, 24)  # cases repeated under python -O (quick, thorough)
 JOBS = 16
 CASE_TIMEOUT = 900
 TOL = 1e-12
